@@ -48,7 +48,7 @@ func c11paths() []c11path {
 		}
 	}
 	causes1 := []string{"none", "disconnect", "drop", "silence", "second-connect", "displaced-same-node", "subscribe-and-drop"}
-	causes2 := append(append([]string{}, causes1...), "displaced-other-node", "leave")
+	causes2 := append(append([]string{}, causes1...), "displaced-other-node", "leave", "displaced-other-node-unaware")
 	// keep-alive values at the edges of the 16-bit field: only short absolute idles (1 s, 3.5 s), pings and subscriptions
 	for _, k := range []int32{32767, 32768, 32769, 65535} {
 		for _, s := range scripts {
@@ -110,7 +110,17 @@ func c11paths() []c11path {
 					if len(s) == 3 && g != "auto" {
 						continue
 					}
+					if c == "displaced-other-node-unaware" && g != "withhold-all" && g != "reverse" {
+						continue // needs every broadcast withheld until the second connection is accepted
+					}
 					out = append(out, c11path{2, k, s, c, g})
+				}
+			}
+			if len(s) <= 1 && k == 10 {
+				// the end of the session is still in node 1's transmit queue when another node (3) is declared failed: what
+				// node 1 queues because of that failure must not cost the queued removals their delivery
+				for _, c := range []string{"none", "disconnect", "drop", "subscribe-and-drop"} {
+					out = append(out, c11path{3, k, s, c, "queued-while-node-3-fails"})
 				}
 			}
 			if vk.Thorough() && len(s) <= 1 {
@@ -250,6 +260,10 @@ func TestC11Lifecycle(t *testing.T) {
 					return ""
 				}
 				var c2 *Client
+				if p.Gossip == "queued-while-node-3-fails" {
+					w.PumpGossip()
+					w.GossipLazy = true
+				}
 				switch p.Cause {
 				case "none":
 					ended = false
@@ -294,6 +308,30 @@ func TestC11Lifecycle(t *testing.T) {
 						viol("c11-displaced-session-still-served", "the displaced session's PINGREQ was answered after its node learned of the new session")
 						return
 					}
+				case "displaced-other-node-unaware":
+					// the same client connects to node 2 before node 2 has heard of the session on node 1 (every broadcast was
+					// withheld so far): the earlier session's record only arrives afterwards. The later connection is the
+					// client's current one all the same: the earlier one is displaced, the later one is served.
+					c2 = w.NewClient("c2", 2, AckAll)
+					if rc := c2.Connect(ConnectOpts{ClientID: "X", KeepAlive: 600}); rc != 0 {
+						viol("c11-displacing-connect-refused", "CONNACK %d", rc)
+						return
+					}
+					w.Step()
+					release()
+					w.Step()
+					c2.Ping()
+					w.Step()
+					if c2.BrokerClosed() || c2.Count("PINGRESP") != 1 {
+						viol("c11-ended-without-cause:newer-session", "the client's newer connection (node 2) was ended or not served once the record of its earlier session (node 1) arrived (closed=%v)", c2.BrokerClosed())
+						return
+					}
+					c.Ping()
+					w.Step()
+					if c.Count("PINGRESP") != pings {
+						viol("c11-displaced-session-still-served", "the displaced session's PINGREQ was answered after its node learned of the new session")
+						return
+					}
 				case "leave":
 					// gossip of the failed node still in flight (relayed by others) may arrive after the failure notice
 					w.DrainGossip()
@@ -310,6 +348,15 @@ func TestC11Lifecycle(t *testing.T) {
 					expectClose = false
 				}
 				w.Step()
+				if p.Gossip == "queued-while-node-3-fails" {
+					// something else is queued on node 1 too (a subscription of another session), then node 3 fails
+					other := w.NewClient("other", 1, AckAll)
+					other.Connect(ConnectOpts{ClientID: "other", KeepAlive: 600})
+					other.Subscribe(1, 0, "other/#")
+					w.Step()
+					w.Leave(3)
+					w.GossipLazy = false
+				}
 				release()
 				if !ended {
 					// a session that must stay alive keeps pinging within its keep-alive during the horizon
@@ -420,6 +467,9 @@ func TestC11Lifecycle(t *testing.T) {
 				if !ended {
 					// subscriptions the script left active are still listed everywhere
 					for _, n := range w.Nodes {
+						if n.Dead {
+							continue
+						}
 						got := map[string]bool{}
 						for _, s := range n.DState.Subscriptions().All() {
 							if s.SessionID == sid {
@@ -439,7 +489,7 @@ func TestC11Lifecycle(t *testing.T) {
 		},
 		func(i int) any { return paths[i] },
 		func(rep *vk.Report) {
-			rep.Rule = "paths = connect(keep-alive 2|10 s) . up to j middle events from " + strings.Join(c11middle, ",") + " . cause in {none, disconnect, drop, silence > 2K, second CONNECT, displaced (same|other node), leave(host)} x gossip policy {auto, withhold-all, reverse, withhold-k} on 1-3 nodes; non-trivial = paths in which the session ended and the cleanup obligations were evaluated"
+			rep.Rule = "paths = connect(keep-alive 2|10 s) . up to j middle events from " + strings.Join(c11middle, ",") + " . cause in {none, disconnect, drop, silence > 2K, second CONNECT, displaced (same|other node), leave(host)} x gossip policy {auto, withhold-all, reverse, withhold-k, left in the transmit queue while another node fails} on 1-3 nodes; non-trivial = paths in which the session ended and the cleanup obligations were evaluated"
 			rep.Bounds["max_middle_events"] = vk.Pick(2, 3)
 			rep.Bounds["silences_required_to_survive"] = "<= 1.4 x keep-alive"
 			rep.Floor("ended_sessions", 100, rep.Nontrivial)
